@@ -45,6 +45,8 @@ exec_main2(int argc, char **argv)
 	_exit(127);
 }
 
+static int run_bin_prefer_plain;
+
 static void
 run_bin(const char *tool, const char *const *av, int ac, const char *in, struct fs_result *r, char *cmd, size_t cmdsz)
 {
@@ -55,7 +57,12 @@ run_bin(const char *tool, const char *const *av, int ac, const char *in, struct 
 	EX_CTR(c_eval, "evaluations");
 	EX_CTR(c_bind, "cli_binding_replays");
 
-	snprintf(path, sizeof(path), "%s/src/%s", tree_dir, tool);
+	/* stages whose oracle is a comparison of outputs (not ASan) use the plain build of the same
+	 * tree when the driver has built it next to this one: an ASan binary costs ~20x more to start */
+	snprintf(path, sizeof(path), "%s/../plain/src/%s", tree_dir, tool);
+	if (!run_bin_prefer_plain || access(path, X_OK)) {
+		snprintf(path, sizeof(path), "%s/src/%s", tree_dir, tool);
+	}
 	exec2_path = path;
 	exec2_stdin = in;
 	if (cmd) {
@@ -551,6 +558,7 @@ do_stream_main(int L, int replay)
 	if (L && !sm_eng_done) {
 		do_stream_main(0, 0);
 	}
+	run_bin_prefer_plain = 1;
 	for (int f = 0; f < 2; f++) {		/* name-first, name-first-separated */
 		for (int t = 0; t < NTAB; t++) {
 			/* forms: 0 dconv stdin, 1 dconv -S in text, 2 dgrep in text, 3 dadd stdin (+0d) */
@@ -670,6 +678,261 @@ do_stream_main(int L, int replay)
 	if (!L) {
 		sm_eng_done = 1;
 	}
+	run_bin_prefer_plain = 0;
+	return bad;
+}
+
+/* ------------------------------------------------------------------ (vii) the output locale must not leak into the search */
+/* Every shipped locale B as --locale x {no --from-locale, six input locales A} x both call orders of
+ * the tools (dadd dround dseq: setilocale, setflocale; dconv: setflocale, setilocale) x the five format
+ * shapes x every name of A (English for none): what the argument form reads and what the stream search
+ * finds (whole line, in text), and its value, must be what they are without the output locale. */
+static const char *const leak_in_names[] = {NULL, "de_DE", "fr_FR", "ru_RU", "ja_JP", "es_ES", "tr_TR"};
+#define NLEAKIN	((int)(sizeof(leak_in_names) / sizeof(*leak_in_names)))
+static int leak_in[NLEAKIN];
+struct leak_base_s {
+	char text[NSFMT][NTAB][13][160];
+	char val[NSFMT][NTAB][13][3][12];	/* forms: argument, whole line, in text; "" = not found */
+};
+static struct leak_base_s *leak_base;
+
+static void
+leak_eval(const char *text, char *fmt, char out[3][12])
+{
+	char *fmts[1] = {fmt};
+	char wrapped[200];
+	struct dt_dt_s a = dt_io_strpdt(text, fmts, 1, NULL);
+	out[0][0] = out[1][0] = out[2][0] = '\0';
+	if (!dt_unk_p(a)) {
+		dt_strfdt(out[0], 12, "%F", a);
+	}
+	stream_find(text, fmt, out[1], 12);
+	snprintf(wrapped, sizeof(wrapped), "foo %s bar", text);
+	stream_find(wrapped, fmt, out[2], 12);
+}
+
+static void
+leak_baseline(void)
+{
+	leak_base = calloc((size_t)NLEAKIN, sizeof(*leak_base));
+	for (int a = 0; a < NLEAKIN; a++) {
+		int A = leak_in_names[a] ? loc_index(leak_in_names[a]) : 0;
+		leak_in[a] = A;
+		/* the texts: printed with A as output locale */
+		impl_fresh();
+		if (A) {
+			setflocale(mloc[A].name);
+		}
+		for (int f = 0; f < NSFMT; f++) {
+			for (int t = 0; t < NTAB; t++) {
+				char fmt[64];
+				mk_sfmt(fmt, sizeof(fmt), f, t);
+				for (int i = 1; i <= tab_n[t]; i++) {
+					dt_strfdt(leak_base[a].text[f][t][i], sizeof(leak_base[a].text[f][t][i]) - 1, fmt, sval(t, i));
+				}
+			}
+		}
+		/* what is read without any output locale */
+		impl_fresh();
+		if (A) {
+			setilocale(mloc[A].name);
+		}
+		for (int f = 0; f < NSFMT; f++) {
+			for (int t = 0; t < NTAB; t++) {
+				char fmt[64];
+				mk_sfmt(fmt, sizeof(fmt), f, t);
+				for (int i = 1; i <= tab_n[t]; i++) {
+					leak_eval(leak_base[a].text[f][t][i], fmt, leak_base[a].val[f][t][i]);
+				}
+			}
+		}
+	}
+	impl_fresh();
+}
+
+static int
+do_leak_lib(int B, int only_a, int replay)
+{
+	static const char *const form_name[3] = {"argument", "whole-line", "in-text"};
+	int bad = 0;
+	char key[256], cas[64], cmd[700];
+	EX_CTR(c_trans, "transitions");
+	EX_CTR(c_states, "states");
+
+	if (lookup_bad[1][B]) {
+		return 0;
+	}
+	for (int a = 0; a < NLEAKIN; a++) {
+		int A = leak_in[a];
+		if (only_a >= 0 && a != only_a) {
+			continue;
+		}
+		if (A && lookup_bad[0][A]) {
+			continue;
+		}
+		for (int order = 0; order < (A ? 2 : 1); order++) {
+			const char *calls = A ? (order == 0 ? "seti,setf" : "setf,seti") : "setf";
+			impl_fresh();
+			if (order == 0) {
+				if (A) {
+					setilocale(mloc[A].name);
+				}
+				setflocale(mloc[B].name);
+			} else {
+				setflocale(mloc[B].name);
+				setilocale(mloc[A].name);
+			}
+			++*c_states;
+			for (int f = 0; f < NSFMT; f++) {
+				for (int t = 0; t < NTAB; t++) {
+					char fmt[64];
+					mk_sfmt(fmt, sizeof(fmt), f, t);
+					for (int i = 1; i <= tab_n[t]; i++) {
+						char got[3][12];
+						const char *text = leak_base[a].text[f][t][i];
+						leak_eval(text, fmt, got);
+						*c_trans += 3;
+						for (int form = 0; form < 3; form++) {
+							const char *want = leak_base[a].val[f][t][i][form];
+							const char *oc;
+							if (!strcmp(got[form], want)) {
+								continue;
+							}
+							oc = !*got[form] ? "lost" : !*want ? "appeared" : "other-value";
+							bad++;
+							if (replay) {
+								printf("  %s: -i '%s' '%s' (%s): without --locale '%s', with --locale %s '%s'\n", calls, fmt, text, form_name[form],
+								       want, mloc[B].name, got[form]);
+							}
+							snprintf(key, sizeof(key), "locale-leak calls=%s format=%s spec=%s outcome=%s", calls, sfmts[f].label, tab_spec[t], oc);
+							snprintf(cas, sizeof(cas), "leak %d %d", B, a);
+							snprintf(cmd, sizeof(cmd), "echo '%s%s%s' | %s %s%s%s --locale %s -i '%s' -f '%%F'%s", form == 2 ? "foo " : "", text, form == 2 ? " bar" : "",
+								 order == 0 && A ? "dadd" : "dconv", form == 2 ? "-S " : "", A ? "--from-locale " : "", A ? mloc[A].name : "",
+								 mloc[B].name, fmt, order == 0 && A ? " +0d" : "");
+							ex_viol(key, (double)B, cas, cmd, "input names of %s, -i '%s', '%s' (%s form): reads as '%s' without an output locale, as '%s' once the output locale is %s (%s)",
+								mloc[A].name, fmt, text, form_name[form], want, got[form], mloc[B].name, calls);
+						}
+					}
+				}
+			}
+		}
+	}
+	impl_fresh();
+	return bad;
+}
+
+/* binaries: dconv (arguments, stdin, -S), dadd and dround (stdin, -S) with --locale B against the same run without it; numeric output */
+static const char *const leakm_in_names[3] = {NULL, "fr_FR", "ru_RU"};
+struct leakm_run_s {
+	const char *tool;
+	int sed, args;
+	const char *extra;
+};
+static const struct leakm_run_s leakm_runs[] = {
+	{"dconv", 0, 1, NULL}, {"dconv", 0, 0, NULL}, {"dconv", 1, 0, NULL},
+	{"dadd", 0, 0, "+0d"}, {"dadd", 1, 0, "+0d"},
+	{"dround", 0, 0, "28"}, {"dround", 1, 0, "28"},
+};
+#define NLEAKMRUN	((int)(sizeof(leakm_runs) / sizeof(*leakm_runs)))
+static const int leakm_tabs[3] = {T_ABBR_MON, T_LONG_MON, T_ABBR_WDAY};
+
+static void
+leakm_run(int run, int a, int B, int f, int t, struct fs_result *r, char *cmd, size_t cmdsz)
+{
+	const struct leakm_run_s *rn = leakm_runs + run;
+	const char *av[40];
+	char fmt[64], in[2600];
+	int ac = 0, aidx = 0, A = leakm_in_names[a] ? loc_index(leakm_in_names[a]) : 0;
+	size_t ik = 0;
+
+	for (int k = 0; k < NLEAKIN; k++) {
+		if (leak_in[k] == A) {
+			aidx = k;
+		}
+	}
+	mk_sfmt(fmt, sizeof(fmt), f, t);
+	av[ac++] = rn->tool;
+	if (rn->sed) {
+		av[ac++] = "-S";
+	}
+	if (A) {
+		av[ac++] = "--from-locale";
+		av[ac++] = mloc[A].name;
+	}
+	if (B) {
+		av[ac++] = "--locale";
+		av[ac++] = mloc[B].name;
+	}
+	av[ac++] = "-i";
+	av[ac++] = fmt;
+	av[ac++] = "-f";
+	av[ac++] = "%F";
+	in[0] = '\0';
+	for (int i = 1; i <= tab_n[t]; i++) {
+		const char *text = leak_base[aidx].text[f][t][i];
+		if (rn->args) {
+			av[ac++] = text;
+		} else {
+			ik += (size_t)snprintf(in + ik, sizeof(in) - ik, rn->sed ? "foo %s bar\n" : "%s\n", text);
+		}
+	}
+	if (rn->extra) {
+		av[ac++] = rn->extra;
+	}
+	av[ac] = NULL;
+	run_bin(rn->tool, av, ac, rn->args ? NULL : in, r, cmd, cmdsz);
+}
+
+static int
+do_leak_main(int B, int replay)
+{
+	static char *base_out[3][2][3][NLEAKMRUN];
+	static int base_st[3][2][3][NLEAKMRUN];
+	int bad = 0;
+	char key[256], cas[64], cmd[3400];
+	EX_CTR(c_trans, "transitions");
+
+	if (lookup_bad[1][B]) {
+		return 0;
+	}
+	run_bin_prefer_plain = 1;
+	for (int a = 0; a < 3; a++) {
+		for (int fi = 0; fi < 2; fi++) {
+			int f = fi + 1;		/* name-first-separated, name-after-separator */
+			for (int ti = 0; ti < 3; ti++) {
+				int t = leakm_tabs[ti];
+				for (int run = 0; run < NLEAKMRUN; run++) {
+					struct fs_result r;
+					int st;
+					if (base_out[a][fi][ti][run] == NULL) {
+						leakm_run(run, a, 0, f, t, &r, NULL, 0);
+						base_out[a][fi][ti][run] = strdup(r.out);
+						base_st[a][fi][ti][run] = r.exited ? r.status : -r.sig;
+						fs_free(&r);
+					}
+					leakm_run(run, a, B, f, t, &r, cmd, sizeof(cmd));
+					st = r.exited ? r.status : -r.sig;
+					++*c_trans;
+					ex_outcome(ex_hash(r.out, r.outlen));
+					if (st != base_st[a][fi][ti][run] || strcmp(r.out, base_out[a][fi][ti][run])) {
+						bad++;
+						snprintf(key, sizeof(key), "locale-leak-main tool=%s form=%s from-locale=%s format=%s spec=%s", leakm_runs[run].tool,
+							 leakm_runs[run].args ? "arguments" : leakm_runs[run].sed ? "sed-in-text" : "stdin", a ? "given" : "none",
+							 sfmts[f].label, tab_spec[t]);
+						snprintf(cas, sizeof(cas), "leakmain %d", B);
+						ex_viol(key, (double)B, cas, cmd, "with --locale %s the run gives [%s] '%.120s', without it status %d '%.120s' (output format %%F: only numbers)",
+							mloc[B].name, fs_ending(&r), r.out, base_st[a][fi][ti][run], base_out[a][fi][ti][run]);
+					}
+					if (replay) {
+						printf("  %s\n  -> [%s] '%.160s' %s\n", cmd, fs_ending(&r), r.out,
+						       (st != base_st[a][fi][ti][run] || strcmp(r.out, base_out[a][fi][ti][run])) ? "(DIFFERS from the run without --locale)" : "(same as without --locale)");
+					}
+					fs_free(&r);
+				}
+			}
+		}
+	}
+	run_bin_prefer_plain = 0;
 	return bad;
 }
 
